@@ -4,7 +4,8 @@
 //	hydrex run <seqs.json> <trace.ndjson>
 //
 // seqs.json: [{"id":N,"indexes":["i1",..],"domains":["d1",..],"keys":["k1",..],
-//              "ops":[{"op":"save","i":"i1","d":"d1","items":[["k1","v1"],..]},{"op":"destroy","i":"i1","d":"d1"}]}]
+//
+//	"ops":[{"op":"save","i":"i1","d":"d1","items":[["k1","v1"],..]},{"op":"destroy","i":"i1","d":"d1"}]}]
 //
 // Every sequence works on its own index names (the abstract name prefixed with the sequence id), so it
 // starts from empty swamps. After EVERY call the driver reads GetCoreData for every (index, domain) and
